@@ -86,8 +86,10 @@ CHECKS["C17"] = {
             "UserRole::new maps '0','1','2' and nothing else; match_url_by_roles grants iff some role value's table grants (unknown roles and unlisted routes: nobody). "
             "Plus table lemmas L1-L3 proved over the role tables and the registered console routes re-extracted from the source on every run "
             "(visitor entries are GET except the login/self-service allow-list; developer has no user-management/transfer entry; visitor <= developer <= manager on every registered route).",
-    "note": "NOT decided: CheckLoginMiddleware::call (regex, actix request, cache actor, async closure) — that every console request passes through match_url_by_roles with a valid "
-            "session is assumed; 'GET handlers do not mutate' is assumed for L1. Table extraction is textual (T6), classification lists come from the property statement.",
+    "note": "Login half: NOT proved — CheckLoginMiddleware::call (regex, actix request, cache actor, async closure) is outside Verus; a BOUNDED stand-in runs on every check (real "
+            "middleware + real console route table on an actix test service; every route of src/console/api.rs x 8 spellings x 4 methods x 4 non-session tokens must be refused or absent) — "
+            "labelled bounded, not counted as proved; that a request WITH a valid session reaches match_url_by_roles with that session's roles is read off the middleware text, not decided; "
+            "'GET handlers do not mutate' is assumed for L1. Table extraction is textual (T6), classification lists come from the property statement.",
     "technique": "contract-based deductive verification (Verus) of extracted functions + Verus lemmas over mechanically extracted table data; failing table lemma replayed natively on UserRole::match_url_by_roles",
 }
 
@@ -96,8 +98,10 @@ CHECKS["C16"] = {
             "contract carries `requires auth off || public type || cluster type || session present` and `requires no cluster token configured || not a cluster request || "
             "cluster token valid`, so Verus proves it at the one real call site; ignore_auth / is_cluster_request equal the public and cluster-internal sets written from the "
             "property statement; a refused request gets 403/500; fill_token_session attaches a session only with auth on, a non-empty presented token and a cache hit for exactly that token.",
-    "note": "HTTP half NOT decided: ApiCheckAuthMiddleware::call (async closure in a generic actix Service, two regexes, route table in web::scope builders) is outside Verus — "
-            "an HTTP route outside the patterns or an over-broad ignore entry is not detected. A-CACHE assumed. The ClusterToken header comparison passes through a closure that "
+    "note": "HTTP half: NOT proved — ApiCheckAuthMiddleware::call (async closure in a generic actix Service, two regexes, route table in web::scope builders) is outside Verus; "
+            "a BOUNDED stand-in runs on every check (real middleware + real route table on an actix test service; 23 paths x 9 spellings x 4 methods x 9 token placements, none "
+            "issued by a login, must get 403 'unknown user!'; the exempted endpoints must not) — labelled bounded, not counted as proved; a request WITH a login-issued token is not covered. "
+            "A-CACHE assumed. The ClusterToken header comparison passes through a closure that "
             "is opaque to Verus (only 'flag raised => token configured' is proved). Trait dispatch to the concrete handlers is abstracted by one shim handler.",
 }
 
